@@ -43,7 +43,7 @@ fn range(u: &mut Unstructured) -> RangeSpec {
 fn script(u: &mut Unstructured, wide: bool) -> Vec<Step> {
     let n = u.int_in_range(0usize..=8).unwrap_or(0);
     (0..n)
-        .map(|_| match u.int_in_range(0u8..=if wide { 11 } else { 4 }).unwrap_or(0) {
+        .map(|_| match u.int_in_range(0u8..=if wide { 13 } else { 4 }).unwrap_or(0) {
             0 | 1 => Step::Next,
             2 | 3 => Step::NextBack,
             4 => Step::Dbg,
@@ -53,6 +53,8 @@ fn script(u: &mut Unstructured, wide: bool) -> Vec<Step> {
             8 => Step::Count,
             9 => Step::Last,
             10 => Step::Fold,
+            11 => Step::Skip(u.int_in_range(0u8..=3).unwrap_or(0)),
+            12 => Step::StepBy(u.int_in_range(0u8..=2).unwrap_or(0)),
             _ => Step::RevCollect,
         })
         .collect()
@@ -91,7 +93,7 @@ fn op(u: &mut Unstructured) -> Op {
         23 | 24 => Op::Extend(cnt(u), hint(u)),
         25 | 26 => Op::ExtendFromSlice(cnt(u)),
         27 => Op::MakeContiguous,
-        28 | 29 | 30 => Op::Drain(range(u), script(u, false), End::Drop),
+        28 | 29 | 30 => Op::Drain(range(u), script(u, true), End::Drop),
         31 => Op::Drain(range(u), script(u, false), End::Forget),
         32 => Op::CloneFrom(u.arbitrary::<u16>().unwrap_or(0) as u32, u.arbitrary::<u16>().unwrap_or(0) as u32),
         33 => Op::Set(ALL_ACC[u.int_in_range(0usize..=ALL_ACC.len() - 1).unwrap_or(0)], idx(u)),
@@ -164,7 +166,7 @@ pub fn decode_io_case(data: &[u8]) -> IoCase {
     };
     while !u.is_empty() && ops.len() < 64 {
         let sz = u.int_in_range(0u32..=(2 * n + 2)).unwrap_or(0);
-        ops.push(match u.int_in_range(0u8..=13).unwrap_or(0) {
+        ops.push(match u.int_in_range(0u8..=14).unwrap_or(0) {
             0 | 1 | 2 | 3 => IoOp::Write(sz),
             4 => IoOp::WriteAll(sz),
             5 => IoOp::ExtendRef(sz),
@@ -173,6 +175,7 @@ pub fn decode_io_case(data: &[u8]) -> IoCase {
             10 => IoOp::FillBuf,
             11 => IoOp::Consume(amt(&mut u)),
             12 => IoOp::FillBufConsume(amt(&mut u)),
+            13 => IoOp::ReadUntil(amt(&mut u)),
             _ => IoOp::ReadToEnd,
         });
     }
